@@ -2,6 +2,7 @@
 
 use crate::report::RunOut;
 use crate::conc;
+use crate::fault;
 use crate::seq;
 use crate::twin;
 use crate::wire;
@@ -15,6 +16,7 @@ pub enum Plan {
     Iso(twin::IsoPlan),
     Wire(wire::WirePlan),
     Conc(conc::ConcPlan),
+    Fault(fault::FaultPlan),
 }
 
 #[derive(Clone, Debug, Serialize, Deserialize, PartialEq)]
@@ -24,6 +26,7 @@ pub enum JobKind {
     Iso { backend: Backend, entry: Entry },
     Wire { backend: Backend },
     Conc { backend: Backend, entry: Entry },
+    Fault { entry: Entry, layer: fault::FaultLayer },
 }
 
 #[derive(Clone, Debug)]
@@ -41,6 +44,7 @@ pub fn gen(kind: &JobKind, seed: u64, thorough: bool) -> Plan {
         JobKind::Iso { backend, entry } => Plan::Iso(twin::gen_iso(seed, *backend, *entry, thorough)),
         JobKind::Wire { backend } => Plan::Wire(wire::gen_plan(seed, *backend, thorough)),
         JobKind::Conc { backend, entry } => Plan::Conc(conc::gen_plan(seed, *backend, *entry, thorough)),
+        JobKind::Fault { entry, layer } => Plan::Fault(fault::gen_plan(seed, *entry, *layer, thorough)),
     }
 }
 
@@ -51,6 +55,7 @@ pub fn exec(plan: &Plan) -> RunOut {
         Plan::Iso(p) => twin::exec_iso(p),
         Plan::Wire(p) => wire::exec(p),
         Plan::Conc(p) => conc::exec(p),
+        Plan::Fault(p) => fault::exec(p),
     }
 }
 
@@ -61,6 +66,7 @@ pub fn scenario_name(plan: &Plan) -> &'static str {
         Plan::Iso(_) => "iso",
         Plan::Wire(_) => "wire",
         Plan::Conc(_) => "conc",
+        Plan::Fault(_) => "fault",
     }
 }
 
@@ -70,6 +76,7 @@ pub fn size(plan: &Plan) -> usize {
         Plan::Twin(p) => p.ops.len(),
         Plan::Iso(p) => p.ops.len(),
         Plan::Wire(p) => p.ops.len() + p.setup.len(),
+        Plan::Fault(p) => p.ops.len(),
         Plan::Conc(p) => p.prefix.len() + p.batch.iter().map(|t| t.len()).sum::<usize>() + p.sched.replay.as_ref().map(|r| r.windows(2).filter(|w| w[0] != w[1]).count()).unwrap_or(0),
     }
 }
@@ -81,6 +88,7 @@ fn candidates(plan: &Plan) -> Vec<Plan> {
         Plan::Iso(p) => twin::shrink_iso(p).into_iter().map(Plan::Iso).collect(),
         Plan::Wire(p) => wire::shrink(p).into_iter().map(Plan::Wire).collect(),
         Plan::Conc(p) => conc::shrink(p).into_iter().map(Plan::Conc).collect(),
+        Plan::Fault(p) => fault::shrink(p).into_iter().map(Plan::Fault).collect(),
     }
 }
 
